@@ -88,7 +88,7 @@ def ints(a, b):
 
 @functools.lru_cache(maxsize=None)
 def value(max_value=1e9, positive=False):
-    lo = 0.001 if positive else 0
+    lo = 0.001 if positive else 1e-9  # no subnormal / near-underflow magnitudes: 0 or >= 1e-9
     return st.one_of(
         st.sampled_from([v for v in _SPECIAL if v <= max_value and (v > 0 or not positive)]),
         st.integers(1 if positive else 0, int(max_value)),
@@ -315,7 +315,7 @@ _SUM_NAMES = st.lists(st.sampled_from(sorted(SUM_METRICS)), max_size=4, unique=T
 _MEDIAN_NAMES = st.lists(st.sampled_from(sorted(MEDIAN_METRICS)), max_size=2, unique=True)
 _SHARDS = st.lists(_CNT, min_size=1, max_size=5)
 _SEG = st.lists(st.integers(0, 5000), max_size=4)
-_ML4 = st.lists(st.floats(0, 1e6, allow_nan=False), min_size=4, max_size=4)
+_ML4 = st.lists(st.sampled_from([0.0, 1.0, 2.5]) | st.floats(1e-3, 1e6, allow_nan=False), min_size=4, max_size=4)
 _FIELDS = st.lists(st.sampled_from(["_id", "_source", "title", "geo"]), min_size=1, max_size=2, unique=True)
 _DISK_PARTS = st.lists(st.tuples(_BYTES, st.booleans()), min_size=len(DISK_METRICS) - 1, max_size=len(DISK_METRICS) - 1)
 _FEW = st.sampled_from([0, 0, 1, 2])
@@ -353,7 +353,7 @@ def _global_records(draw):
 
 _RACE_KNOBS = st.tuples(
     st.sampled_from([1, 2, 2, 3, 3, 4]),
-    st.sampled_from(["small"] * 38 + ["large"] * 6 + ["huge"]),
+    st.sampled_from(["small"] * 40 + ["large"] * 6 + ["huge"] * 2),
     st.integers(0, 3),
     st.sampled_from([True, True, False]),
     st.sampled_from([None, None, {"tag": "x"}]),
